@@ -43,15 +43,25 @@ func NewPhout(fs afero.Fs, conf PhoutConfig) (a Aggregator, err error) {
 		err = errors.Wrap(err, "phout output file open failed")
 		return
 	}
+	var closer io.Closer = file
+	if filename == "" {
+		// os.Stdout is shared with the aggregators of the other pools (and the logger):
+		// it is flushed when the run ends, but never closed by one of its users.
+		closer = stdoutCloser{}
+	}
 	a = &phoutAggregator{
 		config: conf,
 		sink:   make(chan *Sample, conf.SampleQueueSize),
 		writer: bufio.NewWriterSize(file, conf.Buffer.BufferSizeOrDefault()),
 		buf:    make([]byte, 0, 1024),
-		file:   file,
+		file:   closer,
 	}
 	return
 }
+
+type stdoutCloser struct{}
+
+func (stdoutCloser) Close() error { return nil }
 
 type phoutAggregator struct {
 	config PhoutConfig
